@@ -130,3 +130,106 @@ lemma('L_BR_lip', _PBR + [('e', REAL)], lambda c, ns, sl, A, B, e: Implies(And(_
       hints=lambda c, ns, sl, A, B, e: [LEMMAS[n](ns, sl, A, B, e, L_len(ns, NS)) for n in ('L_MaxS_lip', 'L_MinS_lip', 'L_SumS_lip')] + [L_len(ns, NS) >= 0])
 lemma('L_BR_unit', [('c', INT), ('ns', NS), ('sl', SLT), ('A', AR)], lambda c, ns, sl, A: Implies(And(_inrange(ns, sl, L_len(ns, NS)), _unit(A, sl), _proper(c, ns)), And(0 <= BR(c, ns, sl, A), BR(c, ns, sl, A) <= 1)),
       hints=lambda c, ns, sl, A: [LEMMAS[n](ns, sl, A, L_len(ns, NS)) for n in ('L_MaxS_unit', 'L_MinS_unit', 'L_SumS_unit')] + [L_len(ns, NS) >= 0])
+
+# ------------------------------------------------------------------ conditioning (C03): Filter / Renorm, from the statement
+def alive(ns, sl, X, k):
+    return val(ns, sl, X, k) != 0
+
+
+# FilterAlive(ns, sl, RP, i): the elements ns[k], k < i, whose target has a non-zero value, in order
+FilterAlive = spec('FilterAlive', [NS, SLT, RPT, INT], NS)
+SPEC['FilterAlive']['unfold'] = lambda ns, sl, X, i: FilterAlive(ns, sl, X, i) == If(i <= 0, empty(NS), If(alive(ns, sl, X, i - 1), L_app(FilterAlive(ns, sl, X, i - 1), NS, ns_at(ns, i - 1)), FilterAlive(ns, sl, X, i - 1)))
+# AliveMass: their total probability
+AliveMass = spec('AliveMass', [NS, SLT, RPT, INT], REAL)
+SPEC['AliveMass']['unfold'] = lambda ns, sl, X, i: AliveMass(ns, sl, X, i) == If(i <= 0, RealVal(0), If(alive(ns, sl, X, i - 1), AliveMass(ns, sl, X, i - 1) + t_prob(ns_at(ns, i - 1)), AliveMass(ns, sl, X, i - 1)))
+# Renorm(L, m, j): the first j elements of L, each probability divided by m
+Renorm = spec('Renorm', [NS, REAL, INT], NS)
+SPEC['Renorm']['unfold'] = lambda L, m, j: Renorm(L, m, j) == If(j <= 0, empty(NS), L_app(Renorm(L, m, j - 1), NS, trans_mk(prob=t_prob(ns_at(L, j - 1)) / m, tgt=t_tgt(ns_at(L, j - 1)))))
+# FilterLab(ns, best, i): the elements ns[k], k < i, whose label is in `best`, in order (rebuilt as (label, target))
+FilterLab = spec('FilterLab', [NS, LSTR, INT], NS)
+
+
+def _inlist(x, L):
+    k = Int('k!il')
+    return Exists([k], And(0 <= k, k < L_len(L, LSTR), L_arr(L, LSTR)[k] == x))
+
+
+SPEC['FilterLab']['unfold'] = lambda ns, best, i: FilterLab(ns, best, i) == If(i <= 0, empty(NS), If(_inlist(t_lab(ns_at(ns, i - 1)), best), L_app(FilterLab(ns, best, i - 1), NS, trans_mk(lab=t_lab(ns_at(ns, i - 1)), tgt=t_tgt(ns_at(ns, i - 1)))), FilterLab(ns, best, i - 1)))
+
+_PF = [('ns', NS), ('sl', SLT), ('X', RPT), ('i', INT)]
+
+
+def _FA(ns, sl, X, i):
+    return FilterAlive(ns, sl, X, i)
+
+
+def _allq(n_, body):
+    j = Int('j!fa')
+    return ForAll([j], Implies(And(0 <= j, j < n_), body(j)))
+
+
+# length facts
+lemma('L_FA_len', _PF, lambda ns, sl, X, i: And(0 <= L_len(_FA(ns, sl, X, i), NS), L_len(_FA(ns, sl, X, i), NS) <= i), ind='i')
+# every kept element is alive (no dead branch survives) and is an element of the original list
+lemma('L_FA_alive', _PF, lambda ns, sl, X, i: _allq(L_len(_FA(ns, sl, X, i), NS), lambda j: X[L_arr(sl, SLT)[t_tgt(L_arr(_FA(ns, sl, X, i), NS)[j])]] != 0), ind='i',
+      hints=lambda ns, sl, X, i: [LEMMAS['L_FA_len'](ns, sl, X, i - 1)])
+# if nothing was dropped, every element is alive
+lemma('L_FA_full', _PF, lambda ns, sl, X, i: Implies(L_len(_FA(ns, sl, X, i), NS) == i, And(_allq(i, lambda j: alive(ns, sl, X, j)), _allq(i, lambda j: L_arr(_FA(ns, sl, X, i), NS)[j] == ns_at(ns, j)))), ind='i',
+      hints=lambda ns, sl, X, i: [LEMMAS['L_FA_len'](ns, sl, X, i - 1)])
+# every alive element is kept (no transition between positive-probability states is lost): alive(k) => exists j. FA[j] == ns[k]
+def _kept(ns, sl, X, i):
+    k, j = Int('k!kp'), Int('j!kp')
+    F = _FA(ns, sl, X, i)
+    return ForAll([k], Implies(And(0 <= k, k < i, alive(ns, sl, X, k)), Exists([j], And(0 <= j, j < L_len(F, NS), L_arr(F, NS)[j] == ns_at(ns, k)))))
+
+
+lemma('L_FA_keeps', _PF, _kept, ind='i', hints=lambda ns, sl, X, i: [LEMMAS['L_FA_len'](ns, sl, X, i - 1)])
+# positive probabilities: the surviving mass is positive as soon as something survives
+lemma('L_AliveMass_pos', _PF, lambda ns, sl, X, i: Implies(_allq(i, lambda j: t_prob(ns_at(ns, j)) > 0), And(AliveMass(ns, sl, X, i) >= 0, Implies(L_len(_FA(ns, sl, X, i), NS) > 0, AliveMass(ns, sl, X, i) > 0))), ind='i',
+      hints=lambda ns, sl, X, i: [LEMMAS['L_FA_len'](ns, sl, X, i - 1)])
+# SumP only looks at the prefix
+lemma('L_SumP_ext', [('A', NS), ('B', NS), ('j', INT)], lambda A, B, j: Implies(_allq(j, lambda k: L_arr(A, NS)[k] == L_arr(B, NS)[k]), SumP(A, j) == SumP(B, j)), ind='j')
+# the surviving mass is the probability sum of the filtered list
+lemma('L_FA_sum', _PF, lambda ns, sl, X, i: SumP(_FA(ns, sl, X, i), L_len(_FA(ns, sl, X, i), NS)) == AliveMass(ns, sl, X, i), ind='i',
+      hints=lambda ns, sl, X, i: [LEMMAS['L_FA_len'](ns, sl, X, i - 1), LEMMAS['L_SumP_ext'](_FA(ns, sl, X, i), _FA(ns, sl, X, i - 1), L_len(_FA(ns, sl, X, i - 1), NS))])
+# Renorm: length, elements, probability sum
+_PR = [('L', NS), ('m', REAL), ('j', INT)]
+lemma('L_Renorm_len', _PR, lambda L, m, j: L_len(Renorm(L, m, j), NS) == j, ind='j')
+lemma('L_Renorm_at', _PR, lambda L, m, j: _allq(j, lambda k: L_arr(Renorm(L, m, j), NS)[k] == trans_mk(prob=t_prob(ns_at(L, k)) / m, tgt=t_tgt(ns_at(L, k)))), ind='j',
+      hints=lambda L, m, j: [LEMMAS['L_Renorm_len'](L, m, j - 1)])
+lemma('L_Renorm_sum', _PR, lambda L, m, j: Implies(m != 0, SumP(Renorm(L, m, j), j) * m == SumP(L, j)), ind='j',
+      hints=lambda L, m, j: [LEMMAS['L_Renorm_len'](L, m, j - 1), LEMMAS['L_Renorm_at'](L, m, j), LEMMAS['L_Renorm_at'](L, m, j - 1),
+                             LEMMAS['L_SumP_ext'](Renorm(L, m, j), Renorm(L, m, j - 1), j - 1)])
+
+
+# every kept element comes from the original list
+def _from(ns, sl, X, i):
+    k, j = Int('k!fr'), Int('j!fr')
+    F = _FA(ns, sl, X, i)
+    return ForAll([j], Implies(And(0 <= j, j < L_len(F, NS)), Exists([k], And(0 <= k, k < i, L_arr(F, NS)[j] == ns_at(ns, k)))))
+
+
+lemma('L_FA_from', _PF, _from, ind='i', hints=lambda ns, sl, X, i: [LEMMAS['L_FA_len'](ns, sl, X, i - 1)])
+
+
+# FilterLab: every kept element is (label, target) of an original element whose label is in `best`
+def _fl_from(ns, best, i):
+    k, j = Int('k!fl'), Int('j!fl')
+    F = FilterLab(ns, best, i)
+    return And(L_len(F, NS) >= 0, L_len(F, NS) <= i,
+               ForAll([j], Implies(And(0 <= j, j < L_len(F, NS)), And(_inlist(t_lab(L_arr(F, NS)[j]), best),
+                                                                     Exists([k], And(0 <= k, k < i, L_arr(F, NS)[j] == trans_mk(lab=t_lab(ns_at(ns, k)), tgt=t_tgt(ns_at(ns, k)))))))))
+
+
+lemma('L_FL_from', [('ns', NS), ('best', LSTR), ('i', INT)], _fl_from, ind='i')
+
+
+# ... and every original element whose label is in `best` is kept
+def _fl_keeps(ns, best, i):
+    k, j = Int('k!fk'), Int('j!fk')
+    F = FilterLab(ns, best, i)
+    return ForAll([k], Implies(And(0 <= k, k < i, _inlist(t_lab(ns_at(ns, k)), best)),
+                               Exists([j], And(0 <= j, j < L_len(F, NS), L_arr(F, NS)[j] == trans_mk(lab=t_lab(ns_at(ns, k)), tgt=t_tgt(ns_at(ns, k)))))))
+
+
+lemma('L_FL_keeps', [('ns', NS), ('best', LSTR), ('i', INT)], _fl_keeps, ind='i', hints=lambda ns, best, i: [LEMMAS['L_FL_from'](ns, best, i - 1)])
